@@ -812,7 +812,7 @@ api_harness!(c17_extra_shared, 10, {
 /// C17: local-only + central-only extra data: local record before
 /// end_local_start_central_extra_data appears only in the local header, the central record
 /// only in the central directory.
-// @h prop=C17,C12 tier=dev t=1800 mem=20 uws="write19validate_extra_data\.0$:4;Iterator3any.*validate_extra_data:51"
+// @h prop=C17,C12 tier=dev t=600 mem=12 uws="write19validate_extra_data\.0$:4;Iterator3any.*validate_extra_data:51"
 api_harness!(c17_extra_local_and_central, 10, {
     let mut sink = Sink::<160>::new();
     let mut w = core::mem::ManuallyDrop::new(ZipWriter::new(sink.handle())); // never dropped: Drop would re-run finalize on every early-return path
@@ -906,7 +906,7 @@ api_harness!(c17_central_only_reserved_refused, 10, {
 /// C09 writer half / C01: the sink accepts the entry DATA in arbitrary short writes (1..=4 bytes per
 /// call, symbolic schedule); the finished archive is byte-for-byte the one the reference layout
 /// prescribes (CRC, sizes, data), i.e. identical to the archive produced with full writes.
-// @h prop=C09,C01 tier=dev t=1500 mem=8
+// @h prop=C09,C01 tier=dev t=600 mem=10 uws="fn:^std::ptr::drop_glue::<std::io::Error>$:2"
 api_harness!(c09_writer_short_data_writes, 10, {
     let mut sink = Sink::<128>::new();
     let mut w = core::mem::ManuallyDrop::new(ZipWriter::new(sink.handle())); // never dropped: Drop would re-run finalize on every early-return path
@@ -1054,7 +1054,7 @@ c08_write_guard!(c08_write_guard_4gib_large, true);
 /// data at a multiple of align (align >= 2), the padding travels in a well-formed local extra
 /// record (id 0x617a) that is absent from the central directory, the returned pad equals the
 /// local extra length, and the content byte is where the local header says.
-// @h prop=C17 tier=dev t=1800 mem=10
+// @h prop=C17 tier=dev t=600 mem=10 uws="fn:^std::ptr::drop_glue::<std::io::Error>$:2"
 api_harness!(c17_aligned_small_any_offset, 12, {
     let base: u64 = kani::any();
     kani::assume(base < (1u64 << 32) - 4096);
